@@ -505,9 +505,16 @@ class MemoryFS(FS):
             if not src_entry.is_dir:
                 raise errors.DirectoryExpected(src_path)
 
+            # an existing destination (or the root) is merged into, as the
+            # base class does, never replaced by re-linking the source entry
+            if self._get_dir_entry(_dst_path) is not None:
+                return super(MemoryFS, self).movedir(
+                    src_path, dst_path, create=create, preserve_time=preserve_time
+                )
+
             # move the entry from the src folder to the dst folder
             dst_dir_entry = self._get_dir_entry(dst_dir)
-            if dst_dir_entry is None or (not create and dst_name not in dst_dir_entry):
+            if dst_dir_entry is None or not dst_dir_entry.is_dir or not create:
                 raise errors.ResourceNotFound(dst_path)
 
             # move the entry from the src folder to the dst folder
